@@ -93,6 +93,9 @@ var c11funcs = map[string]any{
 	},
 }
 
+const c11StepCap = 5_000_000
+const c11StepCapMsg = "verif: C11 step cap"
+
 type c11Engine struct{}
 
 func init() { core.Register(c11Engine{}) }
@@ -1044,8 +1047,8 @@ func (e c11Engine) Run(scAny any, keep bool) (out core.Outcome) {
 	steps := 0
 	interp.VerifStep = func(kind interp.VerifStepKind) {
 		steps++
-		if steps > 2_000_000 {
-			core.Fatal("C11: program exceeded 2M steps:\n%s", src)
+		if steps > c11StepCap {
+			panic(c11StepCapMsg)
 		}
 	}
 	defer func() { interp.VerifStep = nil }()
@@ -1071,6 +1074,11 @@ func (e c11Engine) Run(scAny any, keep bool) (out core.Outcome) {
 	fail := func(oracle, detail string) core.Outcome {
 		out.Fail = &core.Failure{Oracle: oracle, Detail: detail + "\n" + desc}
 		return out
+	}
+	if strings.HasPrefix(res.Panic, c11StepCapMsg) {
+		// every loop of the template language is bounded and the model has finished: a program
+		// that is still executing after millions of VM steps does not follow it
+		return fail("does-not-terminate", fmt.Sprintf("the program was still running after %d VM steps (the longest run of the unchanged tree takes under 2 million); the model ends after %d trace steps with status %d", c11StepCap, len(model.trace), model.status))
 	}
 	if res.Panic != "" {
 		return fail("panic", res.Panic)
